@@ -3,6 +3,7 @@
 package weshnet
 
 import (
+	"encoding/hex"
 	"context"
 	crand "crypto/rand"
 	"fmt"
@@ -74,8 +75,38 @@ type c19Pools struct {
 	rng     *rand.Rand
 }
 
+// c19SpecialKeys: 32-byte strings that pass every length/format check of a public key but are degenerate curve points
+// (the eight small-order Ed25519 points and non-canonical encodings of some of them): whatever is computed with them - a key
+// agreement, a derived identity - must fail with an error, not further down with a panic.
+var c19SpecialKeys = func() [][]byte {
+	var out [][]byte
+	for _, h := range []string{
+		"0100000000000000000000000000000000000000000000000000000000000000",
+		"ecffffffffffffffffffffffffffffffffffffffffffffffffffffffffffff7f",
+		"0000000000000000000000000000000000000000000000000000000000000000",
+		"0000000000000000000000000000000000000000000000000000000000000080",
+		"c7176a703d4dd84fba3c0b760d10670f2a2053fa2c39ccc64ec7fd7792ac037a",
+		"c7176a703d4dd84fba3c0b760d10670f2a2053fa2c39ccc64ec7fd7792ac03fa",
+		"26e8958fc2b227b045c3f489f2ef98f0d5dfac05d3c63339b13802886d53fc05",
+		"26e8958fc2b227b045c3f489f2ef98f0d5dfac05d3c63339b13802886d53fc85",
+		"edffffffffffffffffffffffffffffffffffffffffffffffffffffffffffff7f",
+		"eeffffffffffffffffffffffffffffffffffffffffffffffffffffffffffff7f",
+		"ffffffffffffffffffffffffffffffffffffffffffffffffffffffffffffffff",
+		"0100000000000000000000000000000000000000000000000000000000000080",
+	} {
+		b, err := hex.DecodeString(h)
+		if err != nil {
+			panic(err)
+		}
+		out = append(out, b)
+	}
+	return out
+}()
+
 func (p *c19Pools) genBytes() []byte {
-	switch p.rng.Intn(10) {
+	switch p.rng.Intn(11) {
+	case 10:
+		return c19SpecialKeys[p.rng.Intn(len(c19SpecialKeys))]
 	case 0:
 		return nil
 	case 1:
